@@ -79,6 +79,8 @@ class Shear(Interp):
         return Interp.e_Subscript(self, e)
 
     def binop(self, op, a, b, node):
+        if (isinstance(a, tuple) and a and a[0] == 'ext') or (isinstance(b, tuple) and b and b[0] == 'ext'):
+            return self.binop_ext(op, a, b, node)
         if isinstance(a, tuple) and a and a[0] == 'tail' or isinstance(b, tuple) and b and b[0] == 'tail':
             ua = a[1] if isinstance(a, tuple) else a
             ub = b[1] if isinstance(b, tuple) else b
@@ -109,8 +111,22 @@ class Shear(Interp):
         # profile extended by one end value: kept as a pair for integ.trapezoid
         return ('ext', lift(a), lift(b))
 
+    def binop_ext(self, op, a, b, node):
+        ea = a if (isinstance(a, tuple) and a and a[0] == 'ext') else ('ext', a, a)
+        eb = b if (isinstance(b, tuple) and b and b[0] == 'ext') else ('ext', b, b)
+        return ('ext', Interp.binop(self, op, ea[1], eb[1], node), Interp.binop(self, op, ea[2], eb[2], node))
+
     def c_integ_trapezoid(self, y, x):
-        self.err('trapezoid branch of calculate_shear is not modelled')
+        """scipy.integrate.trapezoid(y_ext, x_ext) with x_ext = append(varphi, 2 pi/nfp) is the linear functional
+        sum_j y_j w_j + y_end w_end  with the trapezoid weights w (inputs trapz_w, trapz_wend; computed from varphi by the harness
+        exactly as the rule prescribes and validated against the implementation on every run)"""
+        if not (isinstance(y, tuple) and y[0] == 'ext' and isinstance(x, tuple) and x[0] == 'ext'):
+            self.err('unsupported trapezoid arguments')
+        xs = x[1]
+        if not (isinstance(xs, E) and xs.op == 'Var' and xs.args[0] == 's.varphi'):
+            self.err('trapezoid abscissa is not self.varphi')
+        self.inputs['trapz_w'] = 'p'; self.inputs['trapz_wend'] = 's'
+        return mk('Add', E('Sum', (mk('Mul', y[1], var('trapz_w', 'p')),), 's'), mk('Mul', y[2], var('trapz_wend', 's')))
 
 
 class SigmaSolve(Interp):
@@ -418,6 +434,7 @@ def programs(kinds):
     P.append(('qsc/calculate_r3.py', 'calculate_r3', 'hN', HN, {}, Interp))
     symc = 'self.sigma0 == 0 and np.max(np.abs(self.rs)) == 0 and (np.max(np.abs(self.zc)) == 0)'
     P.append(('qsc/calculate_r3.py', 'calculate_shear', 'sym', {symc: True}, {'B31c': var('B31c', 's')}, Shear))
+    P.append(('qsc/calculate_r3.py', 'calculate_shear', 'nonsym', {symc: False}, {'B31c': var('B31c', 's')}, Shear))
     bm = {'r': var('r', 's'), 'theta': var('theta', 's'), 'phi': var('phi_arg', 's')}
     for ordn, od in (('r1', {"self.order != 'r1'": False}), ('r2', {"self.order != 'r1'": True})):
         for bt in (False, True):
